@@ -167,6 +167,13 @@ NEUTRAL = {
     "n-c19-slice-plus1": ("pulsarbat/utils.py", "    h[1 : N // 2] = 2", "    h[1 : N // 2 + 1] = 2", ["C19"]),
     "n-stft-scale-fresh": ("pulsarbat/contrib/misc.py", "    x = x.reshape(out_shape)\n    x /= nperseg\n", "    x = x.reshape(out_shape)\n    x = x / nperseg\n", ["C14", "C20"]),
     "n-array-nodtype": ("pulsarbat/core.py", "        x = np.asanyarray(self.data, dtype=dtype)\n", "        x = np.asanyarray(self.data)\n", ["C17"]),
+    "n-c13-distribute": ("pulsarbat/core.py", "            Y = 1j * (L - R)\n", "            Y = 1j * L - 1j * R\n", ["C13"]),
+    "n-c13-stokes-regroup": ("pulsarbat/core.py", "            i = XX + YY\n            Q = XX - YY\n",
+                             "            i = YY + XX\n            Q = -(YY - XX)\n", ["C13"]),
+    "n-c05-reordered-form": ("pulsarbat/transforms/dedispersion.py", "phase = coeff * f * u.cycle * (1 / ref_freq - 1 / f) ** 2",
+                            "phase = u.cycle * f * (1 / f - 1 / ref_freq) ** 2 * coeff", ["C05"]),
+    "n-c06-common-denominator": ("pulsarbat/transforms/dedispersion.py", "delay = coeff * (1 / f ** 2 - 1 / ref_freq ** 2)",
+                                 "delay = coeff / f ** 2 - coeff / ref_freq ** 2", ["C06"]),
     "n-dt-mul": ("pulsarbat/core.py", "self.start_time + s.start / self.sample_rate",
                  "self.start_time + s.start * (1 / self.sample_rate)", ["C01"]),
     "n-guess-1.5N": ("pulsarbat/utils.py", "    f7, guess = 1, 2 * N\n", "    f7, guess = 1, N + N // 2 + 1\n", ["C18"]),
